@@ -23,7 +23,18 @@ node.removeSubscription returned (which waited for in-flight broadcasts) drop th
 channel was subscribed again; regression test for the repository: spec/ChanWriter/fix-c13-regression_test.go.txt.
 With the patch `./check C13` exits 0 (264/264) and `go test -run 'Batch|ChannelWriter|PerChannel|Medium|Unsubscribe|Subscribe' .` passes.
 
+OPEN on unmodified HEAD (after fix b5fb93b8), evidence coverage.head_orphan_probe + witness orphan_witness.cfg, NOT a verdict
+(no natural gate between the two statements of perChannelWriter.Add, so no client-level schedule can be forced):
+ w := getWriter(ch) by a broadcast that passed the subscribed check; unsubscribe site 1: delWriter(ch,false) closes and
+ deletes w; the broadcast's w.Add(item) buffers into the closed, unreachable writer and arms its timer; removeSubscription
+ (waits for the broadcast); unsubscribe site 2: delWriter looks in the map, finds nothing; unsubscribe reply; MaxDelay later
+ the orphan's timer flushes the push.  On the real perChannelWriter (two halves of Add through the shim) the push is
+ delivered after both delWriter calls.  Repair direction: a `closed` flag set by channelWriter.close, Add refusing a closed
+ writer and perChannelWriter.Add fetching the writer again.
+
 Observations outside the properties' quantifiers (evidence only, no verdict):
+ * coverage.batching_off_probe (model cfgswitch_direct_witness.cfg): GetChannelBatchConfig switching a channel from batching to
+   no batching while a push is buffered: the next push is written directly and overtakes it ([2, 1] on the wire).
  * evidence C13 coverage.cfg_change_probe: if GetChannelBatchConfig turns FlushLatestPublication off while a publication
    waits in latestPubs, flushLocked takes `batch = w.buffer` and clears latestPubs: that publication is dropped.
  * SharedPositionSync compares only the position of whichever connection reaches the medium first in a check period; a
@@ -44,6 +55,11 @@ above so that the baseline is exit 0):
       (seeded C13-2) unsubscribe: first delWriter site (under c.mu) removed, the later one skipped after a resubscribe
                                                           exit 1  resub:old-publication-in-new-subscription:plain|pos
                                                           (model: ChanWriterSub gen_witness.cfg Add; UnsubBegin; Resub; Add)
+      (seeded C13-3) getWriter stores a new writer without re-checking the map (two concurrent first adds)
+                                                          exit 1  cw:concurrent-first-add:orphan-writer (stress mode; model: getw_witness.cfg
+                                                          Lookup; Lookup; Store; Store; WAdd; TimerFire)
+      (seeded C13-4) leave pushes bypass the channel writer  exit 1  order:leave-overtakes-buffered:normal|latest (observer schedule;
+                                                          model: kinds_witness.cfg Add(join); Direct(leave); TimerFire)
       timer identity check removed (`if true`) ......... exit 0  MISSED: needs the timer to expire while a size flush /
                                                           close holds the writer lock and the goroutine to pick tm.C; the
                                                           effect is a batch split early, which no C13 clause forbids
@@ -83,7 +99,7 @@ def c13(c):
     quick = c.tier == 'quick'
     c._specdir('ChanWriter')
     # the four TLC runs are independent: run them side by side (4 + 4 + 1 + 1 workers)
-    with ThreadPoolExecutor(max_workers=6) as ex:
+    with ThreadPoolExecutor(max_workers=9) as ex:
         # 1. design: exhaustive TLC, single producer (all cfgs x adds x timer fires x removals / closes)
         f1 = ex.submit(c.tlc_exhaustive, 'ChanWriter', 'ChanWriter', 'quick.cfg' if quick else 'thorough.cfg', workers=4, timeout=3000)
         #    two producers, Add = GetWriter + WAdd, every property except NoOrphanFlush (which is the known window)
@@ -96,6 +112,13 @@ def c13(c):
         #    resubscribe possible in between): clean as coded, and the witness with the first site removed
         f5 = ex.submit(c.tlc_exhaustive, 'ChanWriter', 'ChanWriterSub', 'gen.cfg' if quick else 'gen_thorough.cfg', workers=2, timeout=3000)
         f6 = ex.submit(c.tlc, 'ChanWriter', 'ChanWriterSub', 'gen_witness.cfg', workers=1, timeout=600, expect_violation=True)
+        #    getWriter in its two critical sections (lookup miss, create + store), two producers: clean with the re-check
+        f7 = ex.submit(c.tlc_exhaustive, 'ChanWriter', 'ChanWriter', 'getw.cfg', workers=2, timeout=3000)
+
+        def _witnesses(lst):
+            return {cfg: c.tlc('ChanWriter', mod, cfg, workers=1, timeout=600, expect_violation=True) for mod, cfg in lst}
+        f8 = ex.submit(_witnesses, (('ChanWriter', 'getw_witness.cfg'), ('ChanWriterSub', 'kinds_witness.cfg'), ('ChanWriterSub', 'orphan_witness.cfg')))
+        f9 = ex.submit(_witnesses, (('ChanWriterSub', 'cfgswitch_latest_witness.cfg'), ('ChanWriterSub', 'cfgswitch_direct_witness.cfg')))
         r = f1.result()
         c.log('TLC exhaustive (atomic Add): %d distinct / %d generated, depth %d' % (r['distinct'], r['states'], r['depth']))
         r = f2.result()
@@ -105,6 +128,17 @@ def c13(c):
         r = f5.result()
         c.log('TLC exhaustive (subscription generations, unsubscribe in two steps, resubscribe): %d distinct / %d generated, depth %d' % (r['distinct'], r['states'], r['depth']))
         gw = f6.result()
+        r = f7.result()
+        c.log('TLC exhaustive (getWriter split into lookup / create+store, 2 producers): %d distinct / %d generated, depth %d' % (r['distinct'], r['states'], r['depth']))
+        wits = dict(f8.result())
+        wits.update(f9.result())
+    c.cov['witnesses'] = {}
+    for cfg, wr in wits.items():
+        if wr['ok']:
+            c.notes.append('%s: TLC found no counterexample (the model lost the window this witness stands for)' % cfg)
+        else:
+            c.cov['witnesses'][cfg] = {'violated': wr['error'], 'schedule': [st['step'].get('act') for st in _error_trace(wr['out'])[1:]]}
+    c.log('TLC witnesses: %s' % {k: v['schedule'] for k, v in c.cov['witnesses'].items()})
     if gw['ok']:
         c.notes.append('gen_witness.cfg: TLC found no counterexample to GenBracket without the first delWriter site')
     else:
@@ -183,13 +217,23 @@ def c13(c):
     c.cov['evaluations'] += rr['executed']
     c.cov['traces_validated_against_impl'] += rr['completed']
     c.cov['distinct_nontrivial'] += rr['nontrivial']
+    # 5. concurrent first adds on fresh channels of one real perChannelWriter (getWriter's create-and-store window)
+    st = c.harness(binp, 'cwstress', {'channels': 2500 if quick else 20000}, timeout=600)
+    c.absorb(st)
+    c.cov['evaluations'] += st['executed']
+    c.cov['traces_validated_against_impl'] += st['completed']
+    c.cov['distinct_nontrivial'] += st['nontrivial']
+    c.cov['stress_counters'] = st['counters']
+    for k in ('head_orphan_probe', 'batching_off_probe'):
+        c.cov[k] = (rr.get('extra') or {}).get(k)
     c.cov['race_unit_witness'] = (rr.get('extra') or {}).get('unit_witness')
     c.cov['cfg_change_probe'] = (rr.get('extra') or {}).get('cfg_change_probe')
     c.cov['rule'] = ('behaviours: TLC -simulate of ChanWriterSim (cfg chosen in Init; Add/TimerFire/DelWriter/Close weighted by slots) replayed on the real '
                      'perChannelWriter with MaxDelay 30 ms (retried with 200 ms / 1 s when a step disagrees), the model\'s TimerFire = waiting for the real flush; '
                      'non-trivial = completed behaviour with a batch of >= 2 items or a discard of buffered items, distinct by (cfg, steps); '
                      'traces: 2 adders + unsubscriber + closer, seeded, validated by TLC against ChanWriterTrace (non-trivial = has a batch of >= 2 items); '
-                     'client level: 2 subscription kinds x (plain unsubscribe | unsubscribe inside the broadcast window | resubscribe inside a server-side unsubscribe parked at Broker.PublishLeave with a publication still buffered)')
+                     'client level: 2 subscription kinds x (plain unsubscribe | unsubscribe inside the broadcast window | resubscribe inside a server-side unsubscribe parked at Broker.PublishLeave with a publication still buffered), join / publication / leave / publication inside one batch window seen by an observer (normal and latest mode); '
+                     'stress: 2500 (20000) fresh channels, two spin-released first adders + a third push filling MaxSize + delWriter(false)')
     c.assumptions += ['one channel per perChannelWriter instance (the writers map is keyed by channel, writers share nothing)',
                       'the ChannelBatchConfig of a channel does not change between Adds',
                       'timer goroutines are scheduled within 3 s of their deadline (a later flush is reported as timer-flush-missing)',
